@@ -35,6 +35,25 @@ _ADD = {
     "C20": ("; 40 operations: added literal operators (_st for five character types, _stbuf, _stfmt) with per-thread literals, failing decodes / conversions / format calls whose exception text is part of the result, wide-stream insertion / extraction / writef; exception objects are served from the throwing thread's arena",
             " The operation alphabet includes the literal operators with different literals per thread, error paths (the exception text is part of each thread's result, with per-thread inputs) and the wide-stream glue; exception objects are allocated from the throwing thread's arena so that error paths stay deterministic per thread."),
 }
+_ADD2 = {
+    "C04": ("; aliasing set() also with explicit substitute_invalid / assume_valid; identity of the object returned by 16 members (bound to a reference)",
+            " The object a member returns is bound to a reference and must be a distinct object that does not use the source's storage."),
+    "C10": ("; per well-formed field an argument-value battery (surrogates, 0x110000, -1, 2^32+0x41, LLONG_MIN in char16_t / char32_t / wchar_t / int / long long; text arguments of bytes >= 0x80 through format_latin_1, substitute_invalid, assume_valid)",
+            " Each well-formed field is additionally run with code points at and beyond every {c} boundary in every integer / character type and with text arguments made of bytes >= 0x80."),
+    "C11": ("; user-defined argument types whose format_type calls ST::format (one and two levels), 13 format strings x 4 argument lists x 3 entry points",
+            " User-defined argument types whose format_type itself calls ST::format are compared with the same call given the nested renderings as plain strings."),
+    "C14": ("; b64_encode_size(n) for every n <= 70,000 and around 2^k, 1.5*2^k, 3*2^k (k = 16..61)",
+            " The encoder's length arithmetic is evaluated directly for lengths that cannot be materialised."),
+    "C17": ("; calls without arguments over {a,{{,}},e-acute,{,},space,{}}^<=5 (6 thorough)",
+            " Calls without arguments are enumerated as well (escapes must be reduced and lone braces refused by every sink alike)."),
+    "C19": ("; every fault-free run of the const battery compared with the results recorded before any fault was injected in that state; caller-buffer and size-query decoders, char_buffer encoders",
+            " In every state the battery's results are recorded before faults are injected and every later fault-free run must return the same bytes (a failed call must leave nothing behind in static or thread-local state)."),
+    "C20": ("; per-thread pad characters in the writef operations", ""),
+    "C16": ("; slots live in mappings of their own (fences + guard pages)", ""),
+}
+for _pid, (_b, _t) in _ADD2.items():
+    _b0, _t0 = _ADD[_pid]
+    _ADD[_pid] = (_b0 + _b, _t0 + _t)
 for _pid, (_b, _t) in _ADD.items():
     for _tier in ("quick", "thorough"):
         PROPS[_pid]["bounds"][_tier] += _b
